@@ -48,6 +48,20 @@ CHECKS = {
              "pairwise non-commuting real aliasers and every view compared with the evaluated term.",
         design_ref="7 C11", technique="TLA+ symbolic-term model, TLC exhaustive, replay of every configuration in 19 views",
         note="Names invalid in GraphQL ('$ref') skip the GraphQL views only."),
+    "C12": dict(
+        category="model_checking",
+        text="spec/Conversions.tla: converters are uninterpreted wrappers, Layer M transcribes the resolution of "
+             "ConversionsVisitor.visit (dynamic first, else default; next_conversion through containers / unions only; "
+             "sub-conversions; field conversions; identity bypass; LSP matching; MRO lookup of serializers with the "
+             "inherited tri-state; ConversionUnion / catch_value_error outcomes incl. an escaping ValueError). TLC "
+             "checks the laws RejectsAsSource, IdentityBypasses, DynamicIsLocal, ContainersReach, SerializersInherited "
+             "over every environment (registered sequences of <= 2 deserializers, serializer x form x inherited, "
+             "registry vs default_conversion parameter, field conversion) x 10 root types x 8 / 7 dynamic "
+             "conversions; four deviations must break their law. Every configuration is replayed on fresh classes: "
+             "deserialize outcome (value / rejection / escaping ValueError) per datum, serialize output per value, "
+             "support, and both JSON schemas against the schema of the resolved plain type.",
+        design_ref="7 C12", technique="TLA+ transcription of conversion resolution + laws, TLC exhaustive, replay of every configuration",
+        note="Generic (TypeVar) and recursive conversions, dataclass_input_wrapper / as_str helpers are outside the pool."),
     "C13": dict(
         category="model_checking",
         text="spec/DataModel.tla carries, next to the reference rule 'first accepting alternative', an "
